@@ -431,7 +431,7 @@ class C14:
                "np.arctan/np.angle answers are taken from the implementation and checked by the model's exact product (result checking)",
                "numpy Generator streams (random, standard_normal, integers) are replicated from the seed by the harness",
                "the n x n effect of a Loss component (factor sqrt(1-loss) on its mode) is taken from C01's model"]
-    ASSUMPTIONS = ["the theorem C14_reck_reconstructs assumes the nulled matrix is diagonal (what check_null tests); C14_nulled_is_diagonal shows this for exact arithmetic when every step satisfies the nulling equation",
+    ASSUMPTIONS = ["the theorem C14_reck_reconstructs assumes the nulled matrix is diagonal (what check_null tests); C14_nulled_is_diagonal_partial / C14_reck_map_reproduces_partial discharge this for every exactly unitary input in exact arithmetic provided no entry met by the loop has modulus strictly between 0 and 1e-20 (not proved without that proviso, nor for floats: the run measures the exact off-diagonal residue instead)",
                    "seed=None (OS entropy) cases are checked by the oracle only (bounds, validity), not against the model's values",
                    "float rounding: phases are compared on the circle; the value float(2*pi) is accepted as < 2*pi (it is, by 2.4e-16)"]
     CHUNK = 6
